@@ -197,7 +197,7 @@ PROPS["C07"] = {
     "not_proved": ["numerical agreement with the gamma-MLE (root bracket, convergence, SciPy accuracy): bounded stand-in against an independent SciPy evaluation (wide-bracket brentq at 1e-14)",
                    "float32 inputs: loose tolerance only"],
     "assumptions": ["floats are exact reals (model R)"],
-    "level_text": "formula structure only: gammafit feeds the MLE equation with count / sum / sum-of-logs of exactly the strictly positive entries of the calibration slice (loop invariant), fails (0,0) when there is none; gammastd computes p0 as zeros / valid (non-nodata, >= 0) cells of the whole pixel, fits on x[cal_start:cal_stop] and evaluates ndtri(p0 + (1-p0) gammainc(alpha, x/beta)) on every valid cell, nodata elsewhere. Numerical agreement with the MLE is decided by the bounded stand-in",
+    "level_text": "formula structure only: gammafit feeds the MLE equation with count / sum / sum-of-logs of exactly the strictly positive entries of the calibration slice (loop invariant), fails (0,0) when there is none, the statistic is s = log(mean) - mean(log), the root is bracketed by +-40 % around Thom's closed-form estimate (3 - s + sqrt((s-3)^2 + 24 s)) / (12 s) and the scale is mean / shape; gammastd (without overrides) takes its parameters from that fit, computes p0 as zeros / valid (non-nodata, >= 0) cells of the whole pixel, fits on x[cal_start:cal_stop] and evaluates ndtri(p0 + (1-p0) gammainc(alpha, x/beta)) on every valid cell, nodata elsewhere. Numerical agreement with the MLE is decided by the bounded stand-in",
     "level_note": "proof of the formula structure with uninterpreted special functions; numerical clauses only bounded; Numba faithful (C13)",
     "explanation": "count/sum invariants, formula invariant; independent SciPy oracle in the stand-in",
 }
